@@ -2,7 +2,7 @@
 dynamic invocation of each hook kind, for every k, then PAIRS of faults (bounded); contract: extract returns a Stack, every
 injected exception that was actually raised is retrievable (by identity) from the error tree of the result, frames outward
 of the failure equal the fault-free extraction, and the result formats and summarises.
-Bounds: 7 scenarios; hooks {unwrap_stackitem, FrameIterator.__next__, elaborate_frame, contexts_active_in_frame,
+Bounds: 9 scenarios; hooks {unwrap_stackitem, FrameIterator.__next__, elaborate_frame, contexts_active_in_frame,
 elaborate_context, unwrap_context}; all single faults; pairs (k1<k2) of the same or different hook kinds, capped."""
 import sys, os, types, contextlib, threading, itertools
 sys.path.insert(0, os.path.dirname(__file__))
@@ -10,7 +10,7 @@ from _leg import Leg, THOROUGH
 import stackscope
 from stackscope import _extract as E, _customization as Cu
 
-leg = Leg("c05_faults", "7 scenarios x 6 hook kinds x every dynamic invocation index (single faults, exhaustive) + bounded pairs; "
+leg = Leg("c05_faults", "9 scenarios x 6 hook kinds x every dynamic invocation index (single faults, exhaustive) + bounded pairs; "
                         "non-trivial = fault actually raised; distinct by (scenario, hook, k)")
 
 
@@ -104,6 +104,43 @@ CUSTOM_LEAF = object()
 
 def scenario_custom():
     return Custom(), (lambda: None)
+
+
+class CustomPlainIter:
+    pass
+
+
+class _HandIter:
+    """a hand-written iterator: __iter__ / __next__ and nothing else (no close, no send, no throw)"""
+    def __init__(s, items): s.items = list(items)
+    def __iter__(s): return s
+    def __next__(s):
+        if not s.items: raise StopIteration
+        return s.items.pop(0)
+
+
+KIND = ["chain"]
+
+
+@stackscope.unwrap_stackitem.register(CustomPlainIter)
+@stackscope.yields_frames
+def _unwrap_plain(x):
+    # documented use of yields_frames: the decorated function returns an ITERATOR of stack items - any iterator
+    if KIND[0] == "chain":
+        return itertools.chain([CUSTOM_FRAME], [CUSTOM_GEN])
+    if KIND[0] == "map":
+        return map(lambda y: y, [CUSTOM_FRAME, CUSTOM_GEN])
+    return _HandIter([CUSTOM_FRAME, CUSTOM_GEN])
+
+
+def scenario_plain_iterator_chain():
+    KIND[0] = "chain"
+    return CustomPlainIter(), (lambda: None)
+
+
+def scenario_plain_iterator_hand():
+    KIND[0] = "hand"
+    return CustomPlainIter(), (lambda: None)
 
 
 def scenario_nonstack():
@@ -273,11 +310,16 @@ def check_base(item):
 PAIR_CAP = 4000 if THOROUGH else 700
 SEEN_F11 = []
 SEEN_F19 = []
-for scen in (scenario_coro, scenario_thread, scenario_slice, scenario_custom, scenario_nonstack, scenario_unwrapped_gcm, scenario_exiting_gcm):
+for scen in (scenario_coro, scenario_thread, scenario_slice, scenario_custom, scenario_nonstack, scenario_unwrapped_gcm, scenario_exiting_gcm,
+             scenario_plain_iterator_chain, scenario_plain_iterator_hand):
     item, cleanup = scen()
     try:
         _, inj0 = check(scen.__name__, item, None, None, {})
         base = inj0.base
+        leg.case((scen.__name__, "fault-free"), True)
+        if isinstance(base, BaseException):
+            leg.violation(f"{scen.__name__}:fault-free", f"extract() raised {base!r} with no fault injected at all")
+            continue
         basepy = [f.pyframe for f in base.frames]
         totals = dict(inj0.count)
         singles = [(label, k) for label, _, _ in HOOKS for k in range(1, totals.get(label, 0) + 1)]
